@@ -548,15 +548,29 @@ func (d *docSpec) features(c pageCfg) []string {
 					}
 				}
 			}
-			if eff != "" && eff != "running" && (hgt > c.H || total+hgt+slack > c.H) {
+			oofSlack := slack
+			if d.slotHas(i, "clone") {
+				oofSlack += 8 // cloned decorations are reserved at every potential break
+			}
+			if eff != "" && eff != "running" && (hgt > c.H || total+hgt+oofSlack > c.H) {
 				// the box does not fit between its naive static position and the bottom of a page
 				set[eff+"-overflows-page"] = true
 			}
 			if n.tag == "table" && eff != "running" && tableCrowdsPage(n, w, c.H-d.extraHeight(i)) {
 				set["table-header-footer-crowd-page"] = true
 			}
+			if eff == "running" && d.slotHas(i, "inline-block") {
+				total += 10 // the line box that held the inline-level running element may stay in the flow
+			}
 			if eff == "" {
 				total += hgt
+				if d.slotHas(i, "columns") {
+					// orphans/widows can keep all lines in one column: count the unbalanced height,
+					// so that the position of the following boxes is never under-estimated
+					if h2 := estLines(n, (w-10)/2)*10 + d.extraHeight(i); h2 > hgt {
+						total += h2 - hgt
+					}
+				}
 			}
 		}
 		if total > c.H {
